@@ -145,7 +145,7 @@ PROPS = {
         "module": "GtfsVerif.Props.C15",
         "trusted_base": JOURNAL_TB,
         "partial": ["UID injectivity is proved only for suffixes that do not start with a digit (C15_uid_injective_partial); the full statement is false of the code's \"%d%s\" format: C15_uid_collision proves the witness (100,\"5\") vs (1005,\"\"), replayed on the implementation on every run as known finding D17",
-                    "accounting is proved as a refinement of Trip.update / Trip.markPast to the abstract Account (assigned, numUpdates, lastObs, past) plus the per-UID closed form of a feed; the closed-form 'time of the first feed lacking the trip' over whole histories is checked by the oracle on the implementation, not restated as one theorem"],
+                    "accounting over whole histories is a refinement theorem (C15_account_history: after any sequence of feeds the entry of a UID carries the account the specification computes feed by feed) with the marked-past corollary (C15_marked_past_time: the mark is the time of the first feed lacking the trip after a feed that had it, later feeds lacking it change nothing); the identifier fields of the last applied update are per-step theorems (C15_applied_identity)"],
         "assumptions": [],
     },
     "C19": {
@@ -247,7 +247,7 @@ MANIFEST_TEXT = {
         "technique": "Lean 4 proof over regenerated tables (decide) and the alert pre-pass model + differential correspondence",
     },
     "C15": {
-        "text": "Theorems over the BuildJournal model for all histories and windows: output strictly increasing in UID (keys of the state are distinct and every entry's UID is its key, by induction over feeds; mergeSort sortedness), selection = assigned and start in [lo,hi], Trip.update/markPast refine the abstract account (count, last observed, marked-past set once, unassigned updates ignored after assignment, assignment monotone), UID injective for non-digit-leading suffixes; the counterexample to full UID injectivity is proved and kept as known finding D17. Tied to journal.go by comparing every prefix x window of generated histories; an independent accounting oracle checks the implementation.",
+        "text": "Theorems over the BuildJournal model for all histories and windows: output strictly increasing in UID (keys of the state are distinct and every entry's UID is its key, by induction over feeds; mergeSort sortedness), selection = assigned and start in [lo,hi], Trip.update/markPast refine the abstract account (count, last observed, marked-past set once, unassigned updates ignored after assignment, assignment monotone) and the refinement is lifted to whole histories (the entry of a UID after any feed sequence carries the account computed feed by feed; the mark is the time of the first feed lacking the trip), UID injective for non-digit-leading suffixes; the counterexample to full UID injectivity is proved and kept as known finding D17. Tied to journal.go by comparing every prefix x window of generated histories; an independent accounting oracle checks the implementation.",
         "note": "Trusted: Lean kernel, correspondence harness. Known finding D17 (UID collision when the suffix starts with a digit) is listed in KNOWN_FINDINGS.jsonl and reproduced by a dedicated probe on every run.",
         "technique": "Lean 4 proof (state invariants by induction over feeds, refinement to an abstract account) + differential correspondence with journal.BuildJournal",
     },
